@@ -175,8 +175,7 @@ def run(ctx):
                  "forms; ILT, whose constructors (int,int) / initializer_list / (int) / (int,int,int) tell direct from "
                  "list initialisation, for construct_at(p, args...) over 13 argument-pack shapes and for 11 "
                  "emplace_back/emplace scenarios of amc::vector, SmallVector<2>, FixedCapacityVector<4> against "
-                 "std::vector; "
-                 "forms) x length 0..max_length x fault index k=0..E with E measured on the fault-free run.  One "
+                 "std::vector) x length 0..max_length x fault index k=0..E with E measured on the fault-free run.  One "
                  "evaluation = one (build, case) executed in the amc world and compared with the reference world "
                  "(and the std world where available).  distinct_nontrivial counts the evaluations with length > 0; "
                  "they are pairwise distinct because the loops never repeat a tuple."),
